@@ -262,6 +262,10 @@ func runSched(prop string) *ShardResult {
 		}
 	}
 	res.Mins["preemption_bound_completed_for_all_scenarios"] = int64(completed)
+	if prop == "C06" && *fShard == 0 {
+		// metric observations are made from reader and writer goroutines alike: names must not be built in shared memory
+		goMetricsPass("C06", res)
+	}
 	if prop == "C06" && *fRaceBin != "" && *fShard == 0 {
 		racePass(res)
 	}
